@@ -250,12 +250,25 @@ func findLevelFlag(fn *ssa.Function) *ssa.Phi {
 					}
 				case *ssa.Phi:
 					walk(x)
+				case *ssa.BinOp:
+					// the flag starts from a test instead of from false ("a second factor is always enough")
+					if x.Op == token.EQL || x.Op == token.NEQ {
+						hasF = true
+					}
 				}
 			}
 		}
 		walk(phi)
-		if hasT && hasF && len(seen) >= 2 {
-			cands = append(cands, phi)
+		if hasT && hasF && (len(seen) >= 2 || len(phi.Edges) >= 3) {
+			dup := false
+			for _, q := range cands {
+				if q == phi {
+					dup = true
+				}
+			}
+			if !dup {
+				cands = append(cands, phi)
+			}
 		}
 	})
 	if len(cands) == 1 {
@@ -442,6 +455,18 @@ func checkLevelFlagRec(c *km.Ctx, s *km.Sem, h *ssa.Function, flag *ssa.Phi, vis
 				sort.Strings(descs)
 				c.R.Add("R-C01-2", km.FuncName(h), "flag := true", posOf(c, pred.Instrs[len(pred.Instrs)-1]), "on every path to the assignment: listed=='password', or listed==K ∧ level has bit K (same constant name in proto and main), or level has the U2F bit", clipS(strings.Join(descs, " | "), 600), ok)
 			default:
+				// a computed operand: the flag is the truth of one test, which has to be a licence in itself (the
+				// facts of that test being true)
+				if cf := c.F.CondFacts(e, true); len(cf) > 0 {
+					k := c.F.NewConj()
+					for _, f := range cf {
+						k = k.With(f)
+					}
+					d, good := levelLicence(c, s, k, isListed, protoByVal, mainByVal, u2fBit)
+					nTrue++
+					c.R.Add("R-C01-2", km.FuncName(h), "flag := test", posOf(c, p), "the test is a licence in itself: listed=='password', or listed==K ∧ level has bit K, or level has the U2F bit", clipS(d, 300), good)
+					continue
+				}
 				c.R.Add("R-C01-2", km.FuncName(h), "flag operand (computed)", posOf(c, p), "flag operands are the constants true/false", km.ValStr(e), false)
 			}
 		}
